@@ -214,25 +214,36 @@ func runC12(c *rt.Ctx) {
 								return
 							}
 							cmd.Port = port
-							follow := wire.Op{Kind: "set", Key: "a", Val: "after", Flags: 4, Port: 0}
+							follows := []wire.Op{{Kind: "set", Key: "a", Val: "after", Flags: 4, Port: 0}}
 							if item%2 == 0 {
-								follow = wire.Op{Kind: "get", Key: "a", Port: len(cfg.Ports()) - 1}
+								follows = []wire.Op{{Kind: "get", Key: "a", Port: len(cfg.Ports()) - 1}}
 							}
-							// count handler calls per tier in a fault-free run, then enumerate
-							for tier := 1; tier <= 2; tier++ {
-								if orca == "l1only" && tier == 2 {
-									continue
-								}
-								for call := 0; call < 4; call++ {
-									anyHit := false
-									for _, mode := range modes {
-										f := &HandlerFault{Tier: tier, Call: call, Mode: mode}
-										sc := ConcScenario{Harness: "C12", Cfg: cfg, Init: init, Threads: []ConcThread{{Port: port, Ops: []wire.Op{cmd}}, {Port: follow.Port, Ops: []wire.Op{follow}}}}
-										hit := exploreLockFault(c, sc, f)
-										anyHit = anyHit || hit
+							if c.Thorough() {
+								// both kinds of follow-up, from both ports
+								follows = []wire.Op{{Kind: "set", Key: "a", Val: "after", Flags: 4, Port: 0}, {Kind: "get", Key: "a", Port: len(cfg.Ports()) - 1},
+									{Kind: "delete", Key: "a", Port: len(cfg.Ports()) - 1}, {Kind: "mget", Keys: []string{"b", "a"}, Quiet: []bool{proto == "binary", false}, Port: 0}}
+							}
+							for _, follow := range follows {
+								// count handler calls per tier in a fault-free run, then enumerate
+								for tier := 1; tier <= 2; tier++ {
+									if orca == "l1only" && tier == 2 {
+										continue
 									}
-									if !anyHit {
-										break // the command makes fewer calls on this tier
+									maxCall := 4
+									if c.Thorough() {
+										maxCall = 7
+									}
+									for call := 0; call < maxCall; call++ {
+										anyHit := false
+										for _, mode := range modes {
+											f := &HandlerFault{Tier: tier, Call: call, Mode: mode}
+											sc := ConcScenario{Harness: "C12", Cfg: cfg, Init: init, Threads: []ConcThread{{Port: port, Ops: []wire.Op{cmd}}, {Port: follow.Port, Ops: []wire.Op{follow}}}}
+											hit := exploreLockFault(c, sc, f)
+											anyHit = anyHit || hit
+										}
+										if !anyHit {
+											break // the command makes fewer calls on this tier
+										}
 									}
 								}
 							}
